@@ -1,4 +1,6 @@
 CONSTANTS
+  DomSize = 0
+  Blocks = 1
   MaxL = 6
   MaxStmts = 4
   MaxCmts = 4
